@@ -4,8 +4,8 @@ CONSTANTS
   Threads = {1,2}
   Deadlines = {1,2}
   MaxNow = 2
-  MaxSaves = 2
-  Backend = "memory"
+  MaxSaves = 3
+  Backend = "files"
   Net = FALSE
   IntMax = 1000
   GcBatch = 1
